@@ -34,3 +34,45 @@ SPECS["C17"] = dict(
     trusted_base=["Rust std::io::Read contract (a reader never reports more bytes than the buffer holds)"],
     assumptions=["64-bit usize; allocation failure (OOM abort) not modelled"],
 )
+
+SPECS["C14"] = dict(
+    title="VouchedTime exists only inside the allowed window around a vouched base time",
+    lean_modules=["Woodpile.Props.C14"],
+    theorems=[
+        "Woodpile.Props.C14.window_consts",
+        "Woodpile.Props.C14.check_vouch",
+        "Woodpile.Props.C14.check_injective",
+        "Woodpile.Props.C14.voucher_unique",
+        "Woodpile.Props.C14.new_ok_iff",
+        "Woodpile.Props.C14.new_ok_iff_fits",
+        "Woodpile.Props.C14.no_panic",
+        "Woodpile.Props.C14.reports_local_time",
+        "Woodpile.Props.C14.now_same_rule",
+        "Woodpile.Props.C14.wrap_counterexample",
+        "Woodpile.Props.C14.trunc_counterexample",
+    ],
+    families=[dict(name="vtime", quick=3000, thorough=400000)],
+    technique=("Lean 4 proof (integer/UInt64 arithmetic over all local times x 2^64 base times x 2^64 vouchers; ring identities "
+               "of the raffle voucher in Z/2^64 for the extracted parameters) + model/implementation correspondence"),
+    design_ref="DESIGN.md section 5, C14",
+    level_text=("Kernel-checked theorems about a Lean model of raffle's check/vouch (exact wrapping u64 arithmetic) and of "
+                "VouchedTime::check_vouched_time/check/new/check_or_die/get_local_time/now (i128 as Int, div_euclid, the <0 and "
+                ">u64::MAX guards, the signed window): new succeeds iff the voucher checks, the local time is not before the epoch "
+                "and floor(local/1ms) - base is in [-59900, 2990], for every representable local time (and every one whose "
+                "millisecond count fits a u64), all 2^64 base times and all vouchers; no panic site is reachable; a constructed "
+                "value reports its construction time; now() is new() on the clock reading. The voucher check is characterised "
+                "completely (check x v iff v = the crate's own voucher of x) for the parameter strings re-extracted from /repo on "
+                "every run; the literal window constants are re-checked against the extracted ones. The old wrapping / truncating "
+                "formulas (findings F4, F5) are proved to violate the rule. The model is tied to /repo by running the real "
+                "VouchedTime and raffle code and the compiled model on the same enumerated + random triples (both window edges "
+                "+-1 ms, epoch +-1 ns/ms, calendar MIN/MAX, base times at 0, 2^63, 2^64-1-k and wrapped around 2^64, own / "
+                "foreign / corrupted vouchers, now() with provider answers on both sides of both edges) and diffing verdicts and "
+                "error classes; a direct oracle evaluates the property's rule in i128 on the real results."),
+    level_note=("Trusted: Lean kernel + 3 standard axioms; the correspondence harness and its generators; the time crate's "
+                "PrimitiveDateTime <-> unix_timestamp_nanos conversion (the model starts from the nanosecond count; MIN/MAX are "
+                "compared with the real crate's on every run); the clock reading inside now() is an input of the model (reported "
+                "by the harness's provider closure)."),
+    trusted_base=["time crate: PrimitiveDateTime::assume_utc().unix_timestamp_nanos() is the nanosecond count of the date-time",
+                  "raffle crate is re-modelled from its source (check.rs, vouch.rs) and compared numerically on every run"],
+    assumptions=["time crate built without the large-dates feature (years -9999..=9999; checked by the `limits` op)"],
+)
